@@ -499,6 +499,17 @@ Definition rq_a_rwnd (buf : Z) (counters : list Z) : Z :=
   let bq := rq_bytes_queued counters in
   if bq >=? buf then 0 else wrap32 (buf - bq).
 
+(* getMyReceiverWindowCredit since 243f816: the streams of the map, then the detached streams (reset by
+   the peer while they still held unread data) that still hold data.  The call also drops the emptied
+   entries from a.detachedStreams; an emptied detached stream can never receive data again (the
+   association no longer routes to it), so that pruning is unobservable and the model keeps the list. *)
+Definition rq_credit (buf : Z) (mapq detq : list rq) : Z :=
+  rq_a_rwnd buf (map rq_nbytes mapq ++ map rq_nbytes (filter (fun q => rq_nbytes q >? 0) detq)).
+
+(* resetStreamsIfAny, for the stream it deletes from the map: kept as detached if it still holds bytes *)
+Definition rq_detach (q : rq) (detq : list rq) : list rq :=
+  if rq_nbytes q >? 0 then detq ++ [q] else detq.
+
 (* acceptPayloadData after stream lookup: true = the chunk is handed to the stream
    (payloadQueue.push + stream.handleData), false = dropped because the buffer is full *)
 Definition rq_admit (credit : Z) (lastTSN : option Z) (tsn : Z) : bool :=
